@@ -165,7 +165,7 @@ def check_groups(cfg, groups, stats, viol, gate=True):
             # not bitwise: the two XLA programs may fuse/round differently by an ulp, and the integer cast turns an ulp around an
             # integer value into a difference of 1 (observed: -2.9999998 vs -3.0 -> -2 vs -3)
             same = all(
-                a.dtype == b.dtype and a.shape == b.shape and np.all(np.abs(a.astype(np.float64) - b.astype(np.float64)) <= (1.0 if a.dtype.kind in "iu" else R.TOL_F))
+                a.dtype == b.dtype and a.shape == b.shape and np.all(np.abs(a.astype(np.float64) - b.astype(np.float64)) <= (1.0 if a.dtype.kind in "iu" else R.TOL_BY_DTYPE.get(str(a.dtype), R.TOL_F)))
                 for a, b in zip(jax.tree_util.tree_leaves(o1), jax.tree_util.tree_leaves(ob))
             )
             stats["vmap_gate_cases"] += 3
@@ -173,8 +173,8 @@ def check_groups(cfg, groups, stats, viol, gate=True):
                 from vf.common import HarnessError
 
                 raise HarnessError(f"vmapped apply_delay differs from the per-call function (case {i}, cfg {cfg})")
-    # jacobians at the interior points
-    jrows = [i for (lo, hi, pts) in gidx for i, pt in zip(range(lo, hi), pts) if "interior" in pt[2]]
+    # jacobians at the interior points of every region and at both bounds (alpha == 0 and alpha == 1)
+    jrows = [i for (lo, hi, pts) in gidx for i, pt in zip(range(lo, hi), pts) if "interior" in pt[2] or "bound" in pt[2]]
     jac = {}
     if jrows:
         import jax
@@ -298,10 +298,14 @@ def _compare_group(cfg, p, ts, pts, lo, out, jac, jpos, span_s, T_s, stats, viol
                         clause="equals the zoh result when ts_start - d hits a message", interp=variant, d=d_s, entry_back_from_newest=j,
                         observed=dict(seq=int(o_seq[k, i]), ts_sent=float(o_s[k, i]), ts_recv=float(o_r[k, i]), data=o_d[k, i].tolist()),
                         zoh=dict(seq=int(z_seq[k, i]), ts_sent=float(z_s[k, i]), ts_recv=float(z_r[k, i]), data=z_d[k, i].tolist())), p, ts)
-        # ---- clause 3: gradient inside the regions
+        # ---- clause 3: gradient inside the regions, and at the bounds alpha == 0 / alpha == 1 against the one-sided finite difference
+        # taken inside [min, max] (there the reference is also evaluated one step outside the range, only to decide whether the
+        # signal is differentiable at the query time; a bound where ts_start - d sits on a message is skipped and counted)
         for k, (d, alpha, tags) in enumerate(pts):
-            if "interior" not in tags or (lo + k) not in jpos:
+            if not ("interior" in tags or "bound" in tags) or (lo + k) not in jpos:
                 continue
+            at_bound = "bound" in tags
+            side = 0 if not at_bound else (1 if d == mn else -1)  # +1: forward difference (d = min), -1: backward (d = max)
             d_s = R.sec(d)
             m = models[k]
             g_obs = jac[variant][jpos[lo + k]]  # (W, Pf)
@@ -317,7 +321,7 @@ def _compare_group(cfg, p, ts, pts, lo, out, jac, jpos, span_s, T_s, stats, viol
                     c, f, b = c[0][R.IS_F], f[0][R.IS_F], b[0][R.IS_F]
                     fwd, bwd = (f - c) / R.FD_H * span_s, (c - b) / R.FD_H * span_s
                     smooth = np.abs(fwd - bwd) <= 1e-3 * np.maximum(1.0, np.abs(fwd))
-                    g = (f - b) / (2 * R.FD_H) * span_s
+                    g = (f - b) / (2 * R.FD_H) * span_s if side == 0 else (fwd if side > 0 else bwd)
                     ok = np.abs(g_obs[W - 1 - j] - g) <= R.TOL_G_REL * np.maximum(1.0, np.abs(g))
                     return smooth, ok, g
 
@@ -327,12 +331,17 @@ def _compare_group(cfg, p, ts, pts, lo, out, jac, jpos, span_s, T_s, stats, viol
                 else:
                     smooth, ok, g = fd(ent["reals"][0], mp[j]["reals"][0], mm[j]["reals"][0])
                     is_nom = False
+                if at_bound:
+                    stats["gradient_at_bound_comparisons"] += int(smooth.any())
+                    stats["gradient_at_bound_nonzero_slope"] += int(bool(np.any(smooth & (np.abs(g) > 1e-3))))
+                    stats["gradient_at_bound_skipped_on_message"] += int(not smooth.all())
                 stats["gradient_comparisons"] += int(smooth.any())  # entries (each: all float elements), like the other clause counters
                 stats["gradient_elements_compared"] += int(smooth.sum())
                 stats["gradient_skipped_at_kinks"] += int((~smooth).sum())
                 if np.all(ok | ~smooth):
                     continue
-                info = dict(clause="d(entry)/d(alpha) = finite difference of the reference inside the region", interp=variant, d=d_s, entry_back_from_newest=j,
+                info = dict(clause="d(entry)/d(alpha) = finite difference of the reference inside the region" if not at_bound else
+                            "d(entry)/d(alpha) at alpha in {0,1} = one-sided finite difference of the reference taken inside [min,max]", interp=variant, d=d_s, alpha=alpha, entry_back_from_newest=j,
                             observed=g_obs[W - 1 - j].tolist(), expected=g.tolist())
                 alt_ok = False
                 if is_nom and ent["irregular"]:
@@ -345,7 +354,7 @@ def _compare_group(cfg, p, ts, pts, lo, out, jac, jpos, span_s, T_s, stats, viol
                 elif variant == "linear_real_only" and not ent["e_real"]:
                     viol.add(_sig_norealarrived(ts), info, p, ts)
                 else:
-                    viol.add(f"gradient:{variant}:{'newest' if j == 0 else 'older'}", info, p, ts)
+                    viol.add(f"gradient{'-at-bound' if at_bound else ''}:{variant}:{'newest' if j == 0 else 'older'}", info, p, ts)
         # ---- clause 4: continuity on the lattice: |f(d +- eps) - f(d)| <= L*eps across every lattice point (real outputs only)
         if p["discont"]:
             continue
@@ -368,7 +377,7 @@ def _compare_group(cfg, p, ts, pts, lo, out, jac, jpos, span_s, T_s, stats, viol
                     if m0[j]["skip"] or m1[j]["skip"] or (j > 0 and (m0[j]["dummy"] or m1[j]["dummy"])):
                         continue  # start-up slots showing dummy messages: no sender signal to be continuous in
                     v0, v1 = o_d[k, W - 1 - j], o_d[k2, W - 1 - j]
-                    bound = L * eps_s + np.where(R.IS_INT, 1.0, 2 * R.TOL_F)
+                    bound = L * eps_s + np.where(R.IS_INT, 1.0, 2 * R.TOLV)
                     stats["continuity_comparisons"] += 1
                     if np.all(np.abs(v1 - v0) <= bound):
                         continue
